@@ -5,6 +5,7 @@ package editops
 // line path and judged by the independent reader. Implementation side only.
 
 import (
+	"encoding/binary"
 	"fmt"
 	"strings"
 
@@ -229,6 +230,113 @@ func PC02Shrink(args []string) string {
 	}
 	if !found {
 		return "FAIL big-file-lost"
+	}
+	return "ok"
+}
+
+// p_c02_exact <kind> <size> <seed>: the size thresholds of the format, hit exactly. A driver with a
+// small PE32 section in a volume with 17 MiB of free space; replace_pe32 with an image chosen so that
+//   kind "sec":  the regenerated PE32 section has 4 + |image| = <size> (the 4-byte header with the
+//                24-bit size below 0xFFFFFF; the 8-byte header with the 32-bit size from 0xFFFFFF on);
+//   kind "file": the rebuilt file has 24 + |sections| = <size> (24-byte header below 0xFFFFFF; the
+//                large form with the 64-bit size and the 32-byte header from 0xFFFFFF on).
+// The saved image keeps its size and is valid for the independent reader; the driver is read back
+// (by the reader's own header decoding) in the form the size asks for, with the image as its PE32
+// section.
+func PC02Exact(args []string) string {
+	kind, size := args[0], int(UnN(args[1]))
+	r := NewRng(UnN(args[2]))
+	var peLen int
+	switch kind {
+	case "sec":
+		peLen = size - 4
+	case "file":
+		peLen = size - 24 - 4 // one PE32 section in the small form is the whole file body
+	default:
+		return "harness-error kind"
+	}
+	if peLen < 2 || (kind == "file" && peLen+4 >= 0xFFFFFF) {
+		return "harness-error size"
+	}
+	pe := make([]byte, peLen)
+	copy(pe, "MZ")
+	for i := 2; i < len(pe); i += 4099 {
+		pe[i] = byte(r.U64())
+	}
+	drv := &uefigen.File{GUID: poolGUID(2), Type: byte(r.Pick(7, 9)), State: 0xF8,
+		Secs: []*uefigen.Sec{{Type: 0x10, Body: append([]byte("MZ"), r.Bytes(r.Pick(0, 5, 30))...)}}}
+	if kind == "sec" && r.Bool() {
+		drv.Secs = append(drv.Secs, &uefigen.Sec{Type: 0x15, Body: ucs2("Exact")})
+	}
+	if r.Bool() {
+		drv.Attr |= 0x40
+	}
+	files := []*uefigen.File{drv}
+	if r.Bool() {
+		files = append([]*uefigen.File{{GUID: poolGUID(1), Type: 0xC0, State: 0xF8, Body: r.Bytes(r.Pick(3, 40))}}, files...)
+	}
+	if r.Bool() {
+		files = append(files, &uefigen.File{GUID: poolGUID(3), Type: 0xC6, State: 0xF8, Body: r.Bytes(17)})
+	}
+	v := &uefigen.Vol{FSGUID: uefigen.FFS3, Attrs: 0x800 | 0x4FEFF, Revision: 2, BlockSize: 4096,
+		Files: files, FreeSpace: 0x1100000 + 4096*r.Pick(0, 1, 5)}
+	if r.Bool() {
+		v.FSGUID = uefigen.FFS2 // Assemble switches the volume to FFSv3 when a large file or section appears
+	}
+	img, _ := uefigen.EmitVol(v)
+	if why := ValidImage(img); why != "" {
+		return "harness-error generated-image-invalid " + why
+	}
+	res := RunEdit(img, []EOp{{Kind: "pe", Target: GuidText(drv.GUID), Data: pe}})
+	if strings.HasPrefix(res.Stage, "harness-error") {
+		return res.Stage
+	}
+	if res.Stage != "ok" {
+		return "FAIL replace_pe32-at-a-size-threshold-failed " + res.Stage
+	}
+	if len(res.Out) != len(img) {
+		return fmt.Sprintf("FAIL size-changed %x -> %x", len(img), len(res.Out))
+	}
+	if why := ValidImage(res.Out); why != "" {
+		return "FAIL invalid-output " + why
+	}
+	found := false
+	for key, off := range FileOffsets(res.Out) {
+		if !strings.HasPrefix(key, fmt.Sprintf("0/%x/", drv.GUID[:])) {
+			continue
+		}
+		found = true
+		fb := res.Out[off:]
+		large := fb[19]&1 != 0
+		hl, fsize := 24, le24(fb[20:])
+		if large {
+			hl, fsize = 32, int(binary.LittleEndian.Uint64(fb[24:]))
+		}
+		if large != (le24(fb[20:]) == 0xFFFFFF) {
+			return "FAIL file-large-attribute-vs-size-field"
+		}
+		shl, ssize, ok := secAt(fb[:fsize], hl)
+		if !ok {
+			return "FAIL pe32-section-unreadable"
+		}
+		if fb[hl+3] != 0x10 || ssize-shl != len(pe) || string(fb[hl+shl:hl+ssize]) != string(pe) {
+			return fmt.Sprintf("FAIL pe32-section-content header=%d size=%x want-payload=%x", shl, ssize, len(pe))
+		}
+		if (shl == 8) != (4+len(pe) >= 0xFFFFFF) {
+			return fmt.Sprintf("FAIL section-header-form %d-byte header for 4+payload=%x", shl, 4+len(pe))
+		}
+		if kind == "file" {
+			body := fsize - hl
+			if large != (24+body >= 0xFFFFFF) {
+				return fmt.Sprintf("FAIL file-header-form large=%v for 24+body=%x", large, 24+body)
+			}
+			if 24+body != size {
+				return fmt.Sprintf("FAIL file-size %x want %x", 24+body, size)
+			}
+		}
+	}
+	if !found {
+		return "FAIL driver-lost"
 	}
 	return "ok"
 }
